@@ -58,6 +58,12 @@ def attr_spec_writers(ctx, rep: Report, rule: str):
     """Attr specifications are shared along the MRO (a subclass's metadata holds the parent's Attr objects unless it
     rebuilds them): a field of an existing specification is never assigned outside the sites where it is built."""
     rep.rules[rule] = "who-may-write the fields of an Attr specification"
+    from .base import static_callees
+    callers = {}
+    for f_ in ctx.p.iter_functions():
+        if not f_.is_lambda:
+            for node_, g_ in static_callees(ctx.p, f_):
+                callers.setdefault(g_.qualname, []).append((f_, node_))
     n = 0
     for fi in ctx.p.iter_functions():
         if fi.is_lambda or not fi.module.name.startswith(ctx.p.package):
@@ -81,6 +87,10 @@ def attr_spec_writers(ctx, rep: Report, rule: str):
                 continue
             n += 1
             ok = any((short == k[0] or short.endswith("." + k[0])) and k[1] in (field, "*") for k in SPEC_WRITERS)
+            if not ok and short.split(".")[-1].startswith("_") and not short.split(".")[-1].startswith("__"):
+                # a private helper extracted from an enumerated site: every static caller must be such a site for this field
+                cs = callers.get(fi.qualname, [])
+                ok = bool(cs) and all(any((_short(cf) == k[0] or _short(cf).endswith("." + k[0])) and k[1] in (field, "*") for k in SPEC_WRITERS) for cf, _ in cs)
             rep.oblige(rule, f"{short}:{field}", ok)
             if not ok:
                 rep.violate(Violation(rule, f"{rule}|{short}|{field}", f"{short} assigns `{ast.unparse(node)[:70]}` on an existing attribute specification: the Attr object is shared with the parent class's (and sibling subclasses') metadata, whose copying / checking behaviour changes with it",
@@ -170,6 +180,13 @@ def inherited_rebuild(ctx, rep: Report, rule: str):
                         ok = True
                     elif isinstance(par, ast.IfExp) and par.body is x and "isinstance(self.do_not_copy, bool)" in ast.unparse(par.test):
                         ok = True
+                    else:
+                        from .c16 import _guards_of
+                        stmt = x
+                        while id(stmt) in parents and not isinstance(stmt, ast.stmt):
+                            stmt = parents[id(stmt)]
+                        if any(g_.startswith("isinstance(self.do_not_copy, bool)") for g_ in _guards_of(d.node, stmt)):
+                            ok = True        # used as a value only where it is known to be the boolean form
                     if not ok:
                         bad.append((x, f"spec_class.{name} uses the raw decorator argument `self.do_not_copy` (a bool or a collection of names) as a value: a non-empty list of names reads as 'true' for every attribute"))
     if n_ctx < 3:
@@ -386,11 +403,13 @@ def preparer_registration(ctx, rep: Report, rule: str):
     """build_attr_spec registers `_prepare_<attr>` / `_prepare_<item>` whenever the class (or a parent/mixin) defines one:
     the lookup inherits (getattr) and the registration is conditional on the preparer only."""
     rep.rules[rule] = "preparer lookup inherits; registration guarded by the preparer only"
-    fi = ctx.p.find_function("spec_class.build_attr_spec")
+    root = ctx.p.find_function("spec_class.build_attr_spec")
     from .c16 import _guards_of
+    from .base import with_callees
     n = 0
     bad = []
-    for node in walk_own(fi.node):
+    sites = [(g, node) for g in with_callees(ctx.p, root, 1) if g is root or g.cls is root.cls for node in walk_own(g.node)]
+    for fi, node in sites:
         if isinstance(node, ast.Assign) and len(node.targets) == 1 and ast.unparse(node.targets[0]) in ("attr_spec.prepare", "attr_spec.prepare_item"):
             n += 1
             field = node.targets[0].attr
@@ -402,13 +421,13 @@ def preparer_registration(ctx, rep: Report, rule: str):
                 if extra or (field == "prepare" and "attr_spec" in names) or (field == "prepare_item" and "attr_spec" in names and "is_collection" not in cnd):
                     bad.append((node, f"`{ast.unparse(node)}` is additionally conditional on `{cnd}`: the preparer of such an attribute is silently not registered"))
             src = [a for a in walk_own(fi.node) if isinstance(a, ast.Assign) and len(a.targets) == 1 and ast.unparse(a.targets[0]) == var]
-            if src and not (isinstance(src[0].value, ast.Call) and ast.unparse(src[0].value.func) == "getattr" and ast.unparse(src[0].value.args[0]) == "spec_cls"):
+            if src and not (isinstance(src[0].value, ast.Call) and ast.unparse(src[0].value.func) == "getattr" and ast.unparse(src[0].value.args[0]) in ("spec_cls", "cls", "owner")):
                 bad.append((src[0], f"`{ast.unparse(src[0])[:80]}` does not look the preparer up with getattr(spec_cls, ...): inherited preparers are dropped"))
     if n < 2:
         raise AnalysisError(f"{rule}: {n} preparer registrations found in build_attr_spec (floor 2)")
     rep.oblige(rule, "spec_class.build_attr_spec", not bad, "; ".join(b for _, b in bad[:2]))
     for node, b in bad[:2]:
-        rep.violate(Violation(rule, f"{rule}|{b[:60]}", f"spec_class.build_attr_spec: {b}", f"{fi.module.relpath}:{node.lineno}", "spec_class.build_attr_spec"))
+        rep.violate(Violation(rule, f"{rule}|{b[:60]}", f"spec_class.build_attr_spec: {b}", f"{root.module.relpath}:{node.lineno}", "spec_class.build_attr_spec"))
 
 
 def metaclass_identity(ctx, rep: Report, rule: str):
@@ -422,3 +441,101 @@ def metaclass_identity(ctx, rep: Report, rule: str):
         d = ci.methods[bad[0]][0]
         rep.violate(Violation(rule, f"{rule}|{bad[0]}", f"ValidatedTypeMeta defines {', '.join(bad)}: two different validated types can compare equal, and List[B] / Union[A, B] then silently reuse or drop one of them (typing caches by ==/hash)",
                               f"{d.module.relpath}:{d.node.lineno}", "ValidatedTypeMeta"))
+
+
+# -------------------------------------------------------------------------------------------------
+def parent_ctor_guard(ctx, rep: Report, rule: str):
+    """InitMethod.init walks the whole MRO; `getattr(parent, '__spec_class__')` is also true for a plain class that only
+    inherits its metadata (and its constructor) from a spec class.  Calling `parent.__init__` for such a class re-runs
+    the inherited constructor without the keyword arguments and resets what was just initialised: the call must be
+    conditional on the class defining its own constructor."""
+    from .c16 import _guards_of
+    rep.rules[rule] = "parent constructors are invoked only for classes that define their own __init__"
+    from ..scenarios import core_impl
+    fi = core_impl(ctx.H, "init").impl
+    calls = [n for n in walk_own(fi.node) if isinstance(n, ast.Call) and isinstance(n.func, ast.Attribute) and n.func.attr == "__init__"
+             and isinstance(n.func.value, ast.Name)]
+    if not calls:
+        raise AnalysisError(f"{rule}: no parent constructor call found in InitMethod.init")
+    for c in calls:
+        var = c.func.value.id
+        conds = " && ".join(_guards_of(fi.node, c))
+        ok = (f"'__init__' in {var}.__dict__" in conds or f"'__init__' in vars({var})" in conds) and "not ('__init__'" not in conds
+        rep.oblige(rule, f"InitMethod.init: {var}.__init__", ok, conds[:120])
+        if not ok:
+            rep.violate(Violation(rule, f"{rule}|{var}.__init__", f"InitMethod.init calls `{var}.__init__` for every MRO entry that has (possibly inherited) spec-class metadata: a plain class between two spec classes re-runs its parent's generated constructor without the keywords, so `Sub(a=5).a` falls back to the default",
+                                  f"{fi.module.relpath}:{c.lineno}", "InitMethod.init"))
+
+
+def deepcopy_memo(ctx, rep: Report, rule: str):
+    """The generated __deepcopy__ registers the new instance in `memo` before it copies the attributes; otherwise a
+    reference back to the instance (x.parent = x, parent <-> child) recurses until RecursionError."""
+    rep.rules[rule] = "__deepcopy__ registers the copy in the memo before copying attributes"
+    fi = ctx.p.find_function("DeepCopyMethod.deepcopy")
+    regs = [n for n in walk_own(fi.node) if isinstance(n, ast.Assign) and any(isinstance(t, ast.Subscript) and ast.unparse(t.value) == "memo" and "id(self)" in ast.unparse(t.slice) for t in n.targets)]
+    first_copy = min((n.lineno for n in walk_own(fi.node) if isinstance(n, ast.Call) and ast.unparse(n.func).split(".")[-1] in ("protect_via_deepcopy", "deepcopy")), default=None)
+    if first_copy is None:
+        raise AnalysisError(f"{rule}: no attribute copy found in DeepCopyMethod.deepcopy")
+    ok = bool(regs) and min(r.lineno for r in regs) < first_copy
+    rep.oblige(rule, "DeepCopyMethod.deepcopy", ok)
+    if not ok:
+        rep.violate(Violation(rule, f"{rule}|memo", "DeepCopyMethod.deepcopy copies the attributes before registering the new instance in `memo`: a self-referential instance (or a parent<->child cycle of instances) is copied by unbounded recursion (RecursionError) by deepcopy() and by every copy-on-write helper",
+                              f"{fi.module.relpath}:{fi.node.lineno}", "DeepCopyMethod.deepcopy"))
+
+
+def rebuild_options(ctx, rep: Report, rule: str):
+    """When bootstrap rebuilds the specification of an inherited attribute (the subclass re-defaults it or changes its
+    do_not_copy), the options of the inherited specification that are not expressed by the class attribute itself
+    (default_factory, init, repr, compare, hash, metadata, desc, invalidated_by) must be carried over."""
+    rep.rules[rule] = "refresh of inherited Attr specs carries the inherited options over"
+    bs = ctx.p.find_function("spec_class.bootstrap")
+    loops = [n for n in walk_own(bs.node) if isinstance(n, ast.For) and "attrs.items()" in ast.unparse(n.iter)
+             and any(isinstance(c, ast.Call) and ast.unparse(c.func).endswith("build_attr_spec") for c in ast.walk(n))]
+    if not loops:
+        raise AnalysisError(f"{rule}: refresh loop not found")
+    loop = loops[0]
+    var = loop.target.elts[1].id
+    src = ast.unparse(loop)
+    bfn = ctx.p.find_function("spec_class.build_attr_spec")
+    fav = ctx.p.find_function("Attr.from_attr_value")
+    carried = [o for o in ("default_factory", "init", "repr", "compare", "hash", "metadata", "desc", "invalidated_by")
+               if f"{var}.{o}" in src or f"'{o}'" in ast.unparse(bfn.node) and "inherit" in ast.unparse(bfn.node)]
+    lost = [o for o in ("default_factory", "init", "repr", "compare") if o not in carried]
+    rep.oblige(rule, "spec_class.bootstrap[inherited options]", not lost, str(lost))
+    if lost:
+        rep.violate(Violation(rule, f"{rule}|options-lost", f"spec_class.bootstrap rebuilds an inherited attribute's specification from the class attribute alone: the inherited {', '.join(lost)} options are dropped (a subclass that only changes do_not_copy loses a default_factory: the attribute becomes MISSING; re-defaulting an init=False / compare=False attribute makes it a constructor argument / compared again)",
+                              f"{bs.module.relpath}:{loop.lineno}", "spec_class.bootstrap"))
+
+
+def missing_default_contradiction(ctx, rep: Report, rule: str):
+    """A decorator option that bootstrap applies only `if self.<opt> is not MISSING` is meant to be inherited from the
+    parent's metadata when not given: its default in spec_class.__init__ must then be MISSING (a concrete default makes
+    the test vacuous and silently overrides the inherited value)."""
+    rep.rules[rule] = "options guarded by `is not MISSING` in bootstrap default to MISSING in the decorator signature"
+    init = ctx.p.find_function("spec_class.__init__")
+    bs = ctx.p.find_function("spec_class.bootstrap")
+    a = init.node.args
+    pos = a.posonlyargs + a.args
+    defaults = dict(zip([p_.arg for p_ in pos[len(pos) - len(a.defaults):]], a.defaults))
+    defaults.update({p_.arg: d for p_, d in zip(a.kwonlyargs, a.kw_defaults) if d is not None})
+    stored = {}
+    for n in walk_own(init.node):
+        if isinstance(n, ast.Assign) and len(n.targets) == 1 and isinstance(n.targets[0], ast.Attribute) and ast.unparse(n.targets[0].value) == "self" \
+                and isinstance(n.value, ast.Name):
+            stored[n.targets[0].attr] = n.value.id
+    nopt = 0
+    for n in walk_own(bs.node):
+        if isinstance(n, ast.Compare) and isinstance(n.ops[0], (ast.Is, ast.IsNot)) and ast.unparse(n.comparators[0]) == "MISSING" \
+                and isinstance(n.left, ast.Attribute) and ast.unparse(n.left.value) == "self":
+            opt = n.left.attr
+            param = stored.get(opt)
+            if param is None or param not in defaults:
+                continue
+            nopt += 1
+            ok = ast.unparse(defaults[param]) == "MISSING"
+            rep.oblige(rule, f"spec_class({param}=...)", ok, ast.unparse(defaults[param]))
+            if not ok:
+                rep.violate(Violation(rule, f"{rule}|{param}", f"bootstrap applies `{opt}` only when it `is not MISSING`, but the decorator parameter `{param}` defaults to `{ast.unparse(defaults[param])}`: the value inherited from the parent class's metadata is always overwritten (a decorated subclass of a frozen class is mutable)",
+                                      f"{init.module.relpath}:{init.node.lineno}", "spec_class.__init__"))
+    if nopt < 2:
+        raise AnalysisError(f"{rule}: only {nopt} MISSING-guarded options found (floor 2)")
